@@ -474,6 +474,13 @@ pub struct VmStats {
     pub max_gas:         u128,
     pub max_min_gas_cost: usize,
     pub exec_ok:         bool,
+    /// Forks per jump destination counted from the fork points of the stored
+    /// states (only where the JUMPI's target is a literal PUSH right before
+    /// it): (largest count, its target). Independent of the VM's own counter.
+    #[serde(default)]
+    pub max_forks_seen:  usize,
+    #[serde(default)]
+    pub max_forks_seen_at: u32,
 }
 
 #[derive(Clone, Debug)]
@@ -903,6 +910,31 @@ fn vm_stats(vm: &VM, code: &[u8], exec_ok: bool) -> VmStats {
         if gas > st.max_gas {
             st.max_gas = gas;
         }
+    }
+    // Independent fork count: every stored state that was forked records the
+    // offset of the JUMPI that forked it.
+    let mut per_target: std::collections::BTreeMap<u32, usize> = std::collections::BTreeMap::new();
+    for state in vm.stored_states() {
+        let p = state.fork_point() as usize;
+        if p == 0 || p >= code.len() || code[p] != 0x57 {
+            continue;
+        }
+        let target = if p >= 3 && code[p - 3] == 0x61 {
+            Some((u32::from(code[p - 2]) << 8) | u32::from(code[p - 1]))
+        } else if p >= 2 && code[p - 2] == 0x60 {
+            Some(u32::from(code[p - 1]))
+        } else {
+            None
+        };
+        if let Some(t) = target {
+            if (t as usize) < code.len() && is_jd[t as usize] {
+                *per_target.entry(t).or_insert(0) += 1;
+            }
+        }
+    }
+    if let Some((t, c)) = per_target.iter().max_by_key(|(_, c)| **c) {
+        st.max_forks_seen = *c;
+        st.max_forks_seen_at = *t;
     }
     for off in 0..len {
         if is_jd[off as usize] {
